@@ -377,6 +377,42 @@ def classify(bad):
     return "invalid"
 
 
+def observe_final_check(specs):
+    """Behavioural counterpart of Generated/BuildFlags: wrap onnx.checker.check_model (a third-party
+    function, looked up by spox at call time), build, and see whether the returned ModelProto is the last
+    object that was checked and has not changed since. -> (n_returned, n_checked_last, detail)"""
+    import onnx
+
+    real = onnx.checker.check_model
+    log = []
+
+    def spy(model, *a, **k):
+        res = real(model, *a, **k)
+        try:
+            log.append((id(model), model.SerializeToString(deterministic=True), k.get("full_check", a[0] if a else False)))
+        except Exception:  # noqa: BLE001
+            log.append((id(model), None, None))
+        return res
+
+    n_ret = n_ok = 0
+    detail = ""
+    onnx.checker.check_model = spy
+    try:
+        for spec in specs:
+            del log[:]
+            st, m = L.build_spec(spec)
+            if st != "ok":
+                continue
+            n_ret += 1
+            if log and log[-1][0] == id(m) and log[-1][1] == m.SerializeToString(deterministic=True):
+                n_ok += 1
+            elif not detail:
+                detail = f"returned model was not the last argument of check_model (calls seen: {len(log)}) for {json.dumps(spec)[:300]}"
+    finally:
+        onnx.checker.check_model = real
+    return n_ret, n_ok, detail
+
+
 HAND_SPECS = [
     # a function whose (user-chosen) name looks like the prefixed name of an inlined node
     # (pinned tree: two nodes called Inline_0__n0_0; fixed by the second fix: commit)
@@ -504,6 +540,16 @@ def run(ck: core.Check):
     for key, r in best.items():
         ck.failure(key, f"build returned a model that fails: {r['bad'][:3]}", {"spec": r["spec"]})
     ck.sample({"spec": results[0]["spec"], "status": results[0]["status"]}, 2)
+
+    # behavioural cross-check of the generated "returned model is the checked one" facts
+    try:
+        sample = [r["spec"] for r in results if r["status"] == "ok"][:60]
+        n_ret, n_ok, detail = observe_final_check(sample)
+        ck.cov["final_check_observed"] = {"builds_returned": n_ret, "returned_is_last_checked_unchanged": n_ok}
+        if n_ret and n_ok != n_ret:
+            ck.broken("correspondence", "C02 generated BuildFlags vs observed behaviour (final check)", detail)
+    except Exception as e:  # noqa: BLE001
+        ck.broken("correspondence", "C02 final check not observable", f"{type(e).__name__}: {e}")
 
     # (b) Lean checkStructural on the real protos (+ corrupted copies) vs the Python walker
     if drv is not None:
